@@ -69,9 +69,9 @@ Print M.
 def run(ctx):
     ctx.coq_props()
     quick = ctx.tier == "quick"
-    n_gen = 2000 if quick else 40000
-    n_wild = 700 if quick else 12000
-    n_seq = 350 if quick else 5000
+    n_gen = 1500 if quick else 40000
+    n_wild = 500 if quick else 12000
+    n_seq = 300 if quick else 5000
     binp = ctx.go_build("c22")
     if not binp:
         return
